@@ -1,2 +1,24 @@
-/- C10 correspondence driver (stub: replaced when the property's model is built) -/
-def main : IO Unit := IO.println "stub"
+import PnVerif.Model.Hints
+/-
+  C10 driver:  RA <envH> <envV> <envR> <argV> <argR> <numFix> <isRedef 0|1>  ->  <h> <v> <r>
+  (hint values are given as they arrive in the info object: integers, may be negative; '-' = absent)
+-/
+open PnVerif.Hints
+
+def hintOf (s : String) : Option Int := if s == "-" then none else s.toInt?
+
+def step (line : String) : String :=
+  match (line.trimAscii.toString.splitOn " ").filter (· != "") with
+  | ["RA", eh, ev, er, av, ar, nf, rd] =>
+    let o := resolveAlign { envH := parseAlignHint (hintOf eh), envV := parseAlignHint (hintOf ev), envR := parseAlignHint (hintOf er),
+                            argV := av.toNat?.getD 0, argR := ar.toNat?.getD 0, numFixVars := nf.toNat?.getD 0, isRedef := rd == "1" }
+    s!"{o.h} {o.v} {o.r}"
+  | _ => "bad-op"
+
+partial def loop (h : IO.FS.Stream) (out : IO.FS.Stream) : IO Unit := do
+  let line ← h.getLine
+  if line.isEmpty then return ()
+  out.putStrLn (step line)
+  loop h out
+
+def main : IO Unit := do loop (← IO.getStdin) (← IO.getStdout)
